@@ -68,8 +68,8 @@ func genOps(t *rapid.T, shape []bool, counts []int, api string) []ref.Op {
 	case "pyr":
 		pr = &ref.PyReader{Shape: shape, Counts: counts}
 	}
-	cur := 0      // our own notion of the current step (advanced on accepted calls)
-	open := false // python reader: iterable handed out
+	cur := 0           // our own notion of the current step (advanced on accepted calls)
+	open := false      // python reader: iterable handed out
 	abandoned := false // python reader: the iterable was closed by the consumer before its end
 	limit := 3*n + 12
 	for len(ops) < limit {
